@@ -39,7 +39,7 @@ class PWM(PoupoolActor):
         self.__duration = 0
         self.__state = False
         self.__security_duration = Timer(f"PWM for {name}")
-        self.__security_duration.delay = timedelta(hours=PWM.SECURITY_DURATION)
+        self.__security_duration.delay = timedelta(seconds=PWM.SECURITY_DURATION)
         self.__security_reset = datetime.now() + timedelta(days=1)
         self.__min_runtime = min_runtime
         self.value = 0.0
